@@ -27,7 +27,7 @@ import (
 func cases(r *evid.Run) []chainsim.Case {
 	var out []chainsim.Case
 	n, blocks := r.Pick(8, 80), r.Pick(60, 100)
-	profiles := []string{"default", "default", "hostile", "registry", "election"}
+	profiles := []string{"default", "evidence", "hostile", "registry", "election"}
 	for i := 0; i < n; i++ {
 		out = append(out, chainsim.Case{Index: i, Seed: uint64(r.Seed)*1_000_003 + uint64(i), Profile: profiles[i%len(profiles)], Blocks: blocks})
 	}
@@ -58,6 +58,7 @@ type monitor struct {
 	chainsim.BaseMonitor
 	hashes *stateHashes
 	pool   *txPool
+	rep    chainsim.Reporter
 }
 
 type txPool struct {
@@ -108,13 +109,30 @@ func (m *monitor) OnBlock(h *chainsim.History, b *chainsim.Block, txs []*chainsi
 	m.hashes.m[b.Height] = hs
 	m.hashes.mu.Unlock()
 	m.pool.add(txs)
+	// Evidence shapes (what the divergence oracle had a chance to see).
+	for _, ev := range b.Misbehavior {
+		m.rep.Count("evidence.entries", 1)
+		age := b.Height - ev.Height
+		if n := h.Sc.NodeByConsensusAddr(ev.Validator.Address); n != nil {
+			m.rep.Count("evidence.against_registered_validator", 1)
+			for _, r := range h.Tests {
+				if r.Cfg.KeepN > 0 && age > int64(r.Cfg.KeepN) {
+					m.rep.Count("evidence.against_registered_validator_with_infraction_height_below_a_replicas_kept_versions", 1)
+					break
+				}
+			}
+		}
+		if age >= 5 {
+			m.rep.Count("evidence.infraction_5_or_more_blocks_back", 1)
+		}
+	}
 }
 
 func runCase(c chainsim.Case, rep chainsim.Reporter, scratch string) {
 	rng := rand.New(rand.NewPCG(c.Seed, 0xc01))
 	hashes := &stateHashes{m: map[int64][32]byte{}}
 	pool := &txPool{}
-	mon := &monitor{hashes: hashes, pool: pool}
+	mon := &monitor{hashes: hashes, pool: pool, rep: rep}
 
 	backends := []string{"badger", "pathbadger"}
 	var reps []chainsim.ReplicaConfig
@@ -126,6 +144,9 @@ func runCase(c chainsim.Case, rep chainsim.Reporter, scratch string) {
 		}
 		if i%2 == 1 {
 			rc.KeepN = uint64(2 + rng.IntN(6))
+			if c.Profile == "evidence" {
+				rc.KeepN = 2 // old infraction heights must be gone on the pruning replicas
+			}
 			rc.PruneInterval = time.Millisecond
 		}
 		rc.MinGasPrice = uint64(rng.IntN(3)) // local configuration must not leak into delivery
